@@ -179,7 +179,16 @@ class Graph:
                         continue
                     path += seg
                     # the very kind of call that was used before the reset, else the nearest answer of the same object
-                    seg2 = self._bfs(seg[-1][2], lambda x, b: b["kind"] == a["kind"], 3) if a["kind"] in self.ANSWER else None
+                    seg2 = None
+                    if a["kind"] in ("transform", "rottransform"):
+                        # first choice: the transform of what is then the training data (comparable with the stored scores)
+                        def _training(x, b):
+                            st = self.states[x]
+                            base = st["r"].get("base") if b["kind"] == "rottransform" else st["m"].get("data")
+                            return b["kind"] == a["kind"] and b.get("arg") == base
+                        seg2 = self._bfs(seg[-1][2], _training, 3)
+                    if seg2 is None and a["kind"] in self.ANSWER:
+                        seg2 = self._bfs(seg[-1][2], lambda x, b: b["kind"] == a["kind"], 3)
                     if seg2 is None:
                         seg2 = self._bfs(seg[-1][2], lambda x, b: b["kind"] in self.ANSWER and b["kind"].startswith("rot") == side, 3)
                     if seg2 is None:
